@@ -49,10 +49,10 @@ type jsonReport struct {
 }
 
 // parseJSONReport decodes one JSON report by its documented layout. Every documented key must be
-// present (buckets only when requested), no other key may occur, "errors" must be an array.
+// present (buckets only when requested); further members are ignored; "errors" is an array (null reads
+// as the empty set).
 func parseJSONReport(line []byte) (*vegeta.Metrics, error) {
 	dec := json.NewDecoder(bytes.NewReader(line))
-	dec.DisallowUnknownFields()
 	var j jsonReport
 	if err := dec.Decode(&j); err != nil {
 		return nil, err
@@ -97,7 +97,7 @@ func parseJSONReport(line []byte) (*vegeta.Metrics, error) {
 		return nil, fmt.Errorf("documented keys missing: %s", strings.Join(missing, ", "))
 	}
 	var errs []string
-	if t := bytes.TrimSpace(j.Errors); len(t) == 0 || t[0] != '[' {
+	if t := bytes.TrimSpace(j.Errors); len(t) == 0 || (t[0] != '[' && string(t) != "null") {
 		return nil, fmt.Errorf("\"errors\" is not an array: %s", t)
 	}
 	if err := json.Unmarshal(j.Errors, &errs); err != nil {
